@@ -299,7 +299,12 @@ fn gen_pres(thorough: bool, rng: &mut Rng) -> Result<(), String> {
     let n = if thorough { 600 } else { 45 };
     for k in 0..n {
         let all_true = !rng.chance(1, 5);
-        let sc = random_scenario(&pool, rng, all_true)?;
+        let mut sc = random_scenario(&pool, rng, all_true)?;
+        // application-chosen short nonces (the API takes any number): 0, 1, a 9-digit value, 2^64, 2^72-1, 2^72
+        if k % 6 == 1 {
+            let shorts = ["0", "1", "123456789", "18446744073709551616", "4722366482869645213695", "4722366482869645213696"];
+            sc.nonce = bn::BigNumber::from_dec(shorts[(k / 6) % shorts.len()]).map_err(|e| e.to_string())?;
+        }
         let mut oracles = vec![];
         let (adds, proof) = prove(&pool, &sc);
         // every predicate as a separate arithmetic case (C03) and refusal oracle
